@@ -287,7 +287,7 @@ def eventauth__checkPowerLevelEventV2 : List String := [
 def eventauth__checkPowerLevelEventV3 : List String := [
   "func func(sender string, createEvent PDU, oldPowerLevels, newPowerLevels PowerLevelContent) error",
   "var content CreateContent",
-  "if err := json.Unmarshal(createEvent.Content(), &content); err != nil {",
+  "if err := json.Unmarshal(exactMembersOnly(createEvent.Content(), &content), &content); err != nil {",
   "return errorf(\"checkPowerLevelEventV3 unparseable create event content: %s\", err.Error())",
   "}",
   "creators := []string{string(createEvent.SenderID())}",
@@ -373,6 +373,9 @@ def eventauth_allowerContext_aliasEventAllowed : List String := [
   "if err != nil {",
   "return err",
   "}",
+  "if sender == nil {",
+  "return errorf(\"userID not found for sender %q in room %q\", event.SenderID(), event.RoomID().String())",
+  "}",
   "if event.RoomID().String() != a.create.roomID {",
   "return errorf(\"create event has different roomID: %q (%s) != %q (%s)\", event.RoomID().String(), event.EventID(), a.create.roomID, a.create.eventID)",
   "}",
@@ -432,6 +435,9 @@ def eventauth_allowerContext_createEventAllowed : List String := [
   "sender, err := a.userIDQuerier(a.roomID, event.SenderID())",
   "if err != nil {",
   "return err",
+  "}",
+  "if sender == nil {",
+  "return errorf(\"userID not found for sender %q in room %q\", event.SenderID(), event.RoomID().String())",
   "}",
   "verImpl, err := GetRoomVersion(event.Version())",
   "if err != nil {",
@@ -983,7 +989,7 @@ def eventcontent__CreatorsFromCreateEvent : List String := [
   "func func(createEvent PDU) (creators []string)",
   "creators = append(creators, string(createEvent.SenderID()))",
   "var content CreateContent",
-  "err := json.Unmarshal(createEvent.Content(), &content)",
+  "err := json.Unmarshal(exactMembersOnly(createEvent.Content(), &content), &content)",
   "if err != nil {",
   "panic(\"invalid create event content: \" + string(createEvent.JSON()))",
   "}",
@@ -1001,7 +1007,7 @@ def eventcontent__NewCreateContentFromAuthEvents : List String := [
   "err = errorf(\"missing create event\")",
   "return",
   "}",
-  "if err = json.Unmarshal(createEvent.Content(), &c); err != nil {",
+  "if err = json.Unmarshal(exactMembersOnly(createEvent.Content(), &c), &c); err != nil {",
   "err = errorf(\"unparseable create event content: %s\", err.Error())",
   "return",
   "}",
@@ -1030,7 +1036,7 @@ def eventcontent__NewJoinRuleContentFromAuthEvents : List String := [
   "if joinRulesEvent == nil {",
   "return",
   "}",
-  "if err = json.Unmarshal(joinRulesEvent.Content(), &c); err != nil {",
+  "if err = json.Unmarshal(exactMembersOnly(joinRulesEvent.Content(), &c), &c); err != nil {",
   "err = errorf(\"unparseable join_rules event content: %s\", err.Error())",
   "return",
   "}",
@@ -1110,7 +1116,7 @@ def eventcontent__NewThirdPartyInviteContentFromAuthEvents : List String := [
   "err = errorf(\"Couldn't find third party invite event\")",
   "return",
   "}",
-  "if err = json.Unmarshal(thirdPartyInviteEvent.Content(), &t); err != nil {",
+  "if err = json.Unmarshal(exactMembersOnly(thirdPartyInviteEvent.Content(), &t), &t); err != nil {",
   "err = errorf(\"unparseable third party invite event content: %s\", err.Error())",
   "}",
   "return"
@@ -1122,7 +1128,7 @@ def eventcontent__checkCreateEventV1 : List String := [
   "return errorf(\"create event room ID domain does not match sender: %q != %q\", event.RoomID().Domain(), sender.String())",
   "}",
   "c := struct { Creator *string `json:\"creator\"` RoomVersion *RoomVersion `json:\"room_version\"` }{}",
-  "if err := json.Unmarshal(event.Content(), &c); err != nil {",
+  "if err := json.Unmarshal(exactMembersOnly(event.Content(), &c), &c); err != nil {",
   "return errorf(\"create event has invalid content: %s\", err.Error())",
   "}",
   "if c.Creator == nil {",
@@ -1142,7 +1148,7 @@ def eventcontent__checkCreateEventV2 : List String := [
   "return errorf(\"create event room ID domain does not match sender: %q != %q\", event.RoomID().Domain(), sender.String())",
   "}",
   "c := struct { RoomVersion *RoomVersion `json:\"room_version\"` }{}",
-  "if err := json.Unmarshal(event.Content(), &c); err != nil {",
+  "if err := json.Unmarshal(exactMembersOnly(event.Content(), &c), &c); err != nil {",
   "return errorf(\"create event has invalid content: %s\", err.Error())",
   "}",
   "if c.RoomVersion != nil {",
@@ -1156,7 +1162,7 @@ def eventcontent__checkCreateEventV2 : List String := [
 def eventcontent__checkCreateEventV3 : List String := [
   "func func(event PDU, sender spec.UserID, knownRoomVersion KnownRoomVersionFunc) error",
   "c := struct { RoomVersion *RoomVersion `json:\"room_version\"` AdditionalCreators []string `json:\"additional_creators\"` }{}",
-  "if err := json.Unmarshal(event.Content(), &c); err != nil {",
+  "if err := json.Unmarshal(exactMembersOnly(event.Content(), &c), &c); err != nil {",
   "return errorf(\"create event has invalid content: %s\", err.Error())",
   "}",
   "if c.RoomVersion != nil {",
@@ -1198,6 +1204,7 @@ def eventcontent__isValidUserID : List String := [
 
 def eventcontent__parseIntegerPowerLevels : List String := [
   "func func(contentBytes []byte, c *PowerLevelContent) error",
+  "contentBytes = exactMembersOnly(contentBytes, c)",
   "var nulls struct { Ban notNullLevel `json:\"ban\"` Invite notNullLevel `json:\"invite\"` Kick notNullLevel `json:\"kick\"` Redact notNullLevel `json:\"redact\"` Users notNullLevels `json:\"users\"` UsersDefault notNullLevel `json:\"users_default\"` Events notNullLevels `json:\"events\"` EventsDefault notNullLevel `json:\"events_default\"` StateDefault notNullLevel `json:\"state_default\"` Notifications notNullLevels `json:\"notifications\"` }",
   "if err := json.Unmarshal(contentBytes, &nulls); err != nil {",
   "return err",
@@ -1207,6 +1214,7 @@ def eventcontent__parseIntegerPowerLevels : List String := [
 
 def eventcontent__parsePowerLevels : List String := [
   "func func(contentBytes []byte, c *PowerLevelContent) error",
+  "contentBytes = exactMembersOnly(contentBytes, c)",
   "var content struct { InviteLevel levelJSONValue `json:\"invite\"` BanLevel levelJSONValue `json:\"ban\"` KickLevel levelJSONValue `json:\"kick\"` RedactLevel levelJSONValue `json:\"redact\"` UserLevels map[string]levelJSONValue `json:\"users\"` UsersDefaultLevel levelJSONValue `json:\"users_default\"` EventLevels map[string]levelJSONValue `json:\"events\"` StateDefaultLevel levelJSONValue `json:\"state_default\"` EventDefaultLevel levelJSONValue `json:\"events_default\"` NotificationLevels map[string]levelJSONValue `json:\"notifications\"` }",
   "if err := json.Unmarshal(contentBytes, &content); err != nil {",
   "return errorf(\"unparseable power_levels event content: %s\", err.Error())",
